@@ -125,6 +125,7 @@ func vfC26Authenticator(r *http.Request) (*AuthContext, error) {
 }
 
 type vfC26Srv struct {
+	lastBody []byte // body of the most recent request sent through post
 	h        *HttpServer
 	res      *vfC26Resolver
 	enabled  bool
@@ -167,6 +168,7 @@ type vfC26Resp struct {
 var vfC26Seq int
 
 func (s *vfC26Srv) post(x *venum.X, callerKind string, body []byte, declared int64) (vfC26Resp, bool) {
+	s.lastBody = body
 	rb := &vfC26Body{r: bytes.NewReader(body)}
 	req := httptest.NewRequest("POST", IntrospectEndpoint, rb)
 	req.ContentLength = declared
@@ -308,6 +310,11 @@ func vfC26Common(x *venum.X, base, class string, s *vfC26Srv, callerKind string,
 		}
 		if len(c) > vfC26MaxCredential {
 			x.Failf("C26:"+csite+":oversized-reached-resolver", "resolver was handed a %d-character credential", len(c))
+		}
+		// the resolver may only ever be asked about a credential THIS request carried
+		esc, _ := json.Marshal(c)
+		if !bytes.Contains(s.lastBody, []byte(c)) && !bytes.Contains(s.lastBody, esc[1:len(esc)-1]) {
+			x.Failf("C26:"+csite+":resolver-got-credential-not-in-request", "resolver was handed %q, which the request body %q does not contain (status %d body %q)", vfC26Clip(c), vfC26Clip(string(s.lastBody)), resp.status, resp.body)
 		}
 	}
 	if len(calls) > 1 {
@@ -498,6 +505,49 @@ func vfC26ShapeSpace(t *testing.T) {
 	})
 }
 
+// vfC26Pairs: two requests in a row on one server — nothing of the first request (its caller,
+// its credential, the resolver's answer to it) may show in the answer to the second.
+func vfC26Pairs(t *testing.T) {
+	shapes := vfC26Shapes()
+	firsts := []struct{ name, caller, cred string }{
+		{"opaque-by-listed", "listed", "vfSECRETfirst-credential-A"},
+		{"opaque-by-listed-2", "listed-2", "vfSECRETfirst-credential-B"},
+		{"jws-by-listed", "listed", "vfSECRETfirst.vfSECRETjws.vfSECRETsig"},
+		{"opaque-by-non-introspector", "authenticated-not-listed", "vfSECRETfirst-credential-C"},
+	}
+	venum.Explore(t, venum.Cfg{Name: "request-pairs", Shardable: true}, func(x *venum.X) {
+		sh := shapes[x.Choose(len(shapes), "second-body")]
+		f := firsts[x.Choose(len(firsts), "first-request")]
+		ck2 := x.Pick("second-caller", "listed", "listed-2")
+		oc := x.Pick("resolver", "ok", "unresolved")
+		x.Note("first %s, then shape %s by %s", f.name, sh.name, ck2)
+		vfC26Logs.reset()
+		s := vfC26NewServer("enabled", "listed", oc, 0)
+		b1 := vfC26TokenBody(f.cred)
+		r1, ok := s.post(x, f.caller, b1, int64(len(b1)))
+		if !ok {
+			return
+		}
+		vfC26Common(x, "request-pairs:first", "", s, f.caller, r1, f.cred)
+		s.res.calls = nil
+		vfC26Logs.reset()
+		r2, ok := s.post(x, ck2, sh.body, int64(len(sh.body)))
+		if !ok {
+			return
+		}
+		class, _, _ := strings.Cut(sh.name, "-")
+		vfC26Common(x, "request-pairs:second", ":"+class, s, ck2, r2, sh.cred)
+		if strings.Contains(r2.body, f.cred) || strings.Contains(vfC26Logs.text(), f.cred) {
+			x.Failf("C26:request-pairs:second:previous-credential-leaked", "the first request's credential shows up in the second response / its log lines")
+		}
+		got := "-"
+		if len(s.res.calls) > 0 {
+			got = fmt.Sprintf("len%d", len(s.res.calls[0]))
+		}
+		x.Outcome("first=%s:%d second=%s/%s:%d %s resolver-got=%s", f.name, r1.status, sh.name, ck2, r2.status, vfC26Clip(r2.body), got)
+	})
+}
+
 func vfC26Rate(t *testing.T) {
 	// one request = (caller, what the resolver will answer if it is reached). The resolver
 	// answer only matters for the two allow-listed callers, so the alphabet has 2*4+1 letters.
@@ -582,5 +632,6 @@ func TestVerif_C26(t *testing.T) {
 	vfC26Callers(t)
 	vfC26Credentials(t)
 	vfC26ShapeSpace(t)
+	vfC26Pairs(t)
 	vfC26Rate(t)
 }
